@@ -567,18 +567,14 @@ class _Linalg:
             singular = bool(d == 0)
         if singular:
             raise _np.linalg.LinAlgError("Singular matrix")
-        e = engine()
-        k = e.fresh_id("solve")
-        xs = [SR(z3.Real(f"solve{k}_{i}")) for i in range(n)]
+        # Cramer's rule: closed-form rational expressions (no fresh unknowns, so no bilinear side constraints)
         Ab = A.view(_np.ndarray)
+        bv = bb.view(_np.ndarray)
+        xs = []
         for i in range(n):
-            row = 0
-            for j in range(n):
-                a = Ab[i, j]
-                if not isinstance(a, (SR, SB)) and a == 0:
-                    continue
-                row = row + a * xs[j]
-            e.assume(sym.bterm(lift(row) == bb.view(_np.ndarray)[i]))
+            Ai = Ab.copy()
+            Ai[:, i] = bv
+            xs.append(_Linalg.det(Ai.view(SymArray)) / d)
         out = _np.empty(n, dtype=object)
         out[:] = xs
         return out.view(SymArray)
